@@ -249,7 +249,11 @@ func (x *Exec) applyContract(fc *FuncContract, key string, sig *types.Signature,
 	}
 	names := map[string]Val{}
 	if recv != nil && sig.Recv() != nil {
-		names[sig.Recv().Name()] = *recv
+		rn := sig.Recv().Name()
+		if rn == "" || rn == "_" {
+			rn = "self"
+		}
+		names[rn] = *recv
 	}
 	for i := 0; i < sig.Params().Len(); i++ {
 		p := sig.Params().At(i)
